@@ -1,5 +1,5 @@
 (* Proofs/C38_asfound.v — refutations on the frozen model of the code as it was found
-   (Model.ConstFoldOrig, ppci commit 1a712d0).  Independent of the regenerated Gen files. *)
+   (Model.ConstFoldOrig, ppci snapshot 722bf2e; constantfolding.py was unchanged until the C38 repairs).  Independent of the regenerated Gen files. *)
 From PV Require Import Lib.Py Spec.IRArith Model.ConstFoldOrig.
 Open Scope Z_scope.
 
